@@ -10,9 +10,13 @@
    nothing below depends on their order (renderers sort).  No proofs in this file. *)
 From ZV Require Import Base.Bytes Base.Res C24.Ops.
 
-(* the filter of Node::is_empty and Node::get_managed_objects *)
+(* the filter of Node::get_managed_objects: the four names it never lists *)
 Definition is_std (k : iface) : bool :=
   match k with Peer | Intro | Props | OM => true | _ => false end.
+
+(* the filter of Node::is_empty since fix 71f8bd70: the three interfaces Node::new puts on every
+   node (an ObjectManager is registered by the user and keeps the node alive) *)
+Definition std3 (k : iface) : bool := match k with Peer | Intro | Props => true | _ => false end.
 
 (* ---- paths: the non-empty segments visited by `path.split('/').skip(1)` with
    `if i.is_empty() { continue }`;  "/" is [] *)
@@ -70,8 +74,8 @@ Definition remove_interface (k : iface) (n : node) : node * bool :=
     end
   end.
 
-(* Node::is_empty — no key other than Peer, Introspectable, Properties, ObjectManager *)
-Definition is_empty (n : node) : bool := negb (existsb (fun e => negb (is_std (fst e))) (ifaces n)).
+(* Node::is_empty — no key other than Peer, Introspectable, Properties (fix 71f8bd70: ObjectManager counts) *)
+Definition is_empty (n : node) : bool := negb (existsb (fun e => negb (std3 (fst e))) (ifaces n)).
 
 (* Node::has_children (added by fix f5fe3276) *)
 Definition has_children (n : node) : bool := match children n with [] => false | _ :: _ => true end.
